@@ -443,6 +443,8 @@ class Prover:
                 out.append(k[2])
             elif f == 'mul' and is_c(k[3]) and k[3][1] >= 1:
                 out.append(k[2])
+            elif f == 'size' and self.use_J and self.I is not None and k[2][0] == 'load' and k[2][1][0] == 'fld' and k[2][1][2] == 'ChunkFooter.layout':
+                out.append(self.I.size_of('ChunkFooter'))      # J3: layout.size = usable + FOOTER_SIZE
         if k[0] == 'load' and self.use_J:
             fp = self.footer_of_field_load(k, 'ptr')
             if fp:
